@@ -75,6 +75,7 @@ func registerIntrinsics(ex *Explorer) {
 	})
 	reg("Assume", func(in *Interp, fn *ssa.Function, a []Value) Value {
 		c := a[0].(*sym.Term)
+		in.flushAsserts()
 		if c.IsConst() {
 			if !c.B {
 				in.fail("assume", "")
@@ -95,31 +96,20 @@ func registerIntrinsics(ex *Explorer) {
 	reg("Assert", func(in *Interp, fn *ssa.Function, a []Value) Value {
 		id := str(a[0])
 		c := a[1].(*sym.Term)
+		if !in.Ex.assertEnabled(id) {
+			return nil
+		}
 		in.Res.Asserts++
 		if c.IsConst() {
 			if !c.B {
+				in.flushAsserts()
 				in.reportViolation(id, "", nil)
 			}
 			return nil
 		}
-		neg := in.F.Not(c)
-		r := in.S.CheckWith(neg)
-		in.Res.Queries++
-		switch r {
-		case sym.Unsat:
-			return nil
-		case sym.Unknown:
-			in.Res.Unknowns++
-			in.fail("unknown", "solver unknown on assertion "+id)
-		}
-		in.reportViolation(id, "", neg)
-		// continue on the side where the assertion holds (if any)
-		r2 := in.S.CheckWith(c)
-		in.Res.Queries++
-		if r2 == sym.Unsat {
-			in.fail("done", "assertion fails on whole path")
-		}
-		in.assertPC(c)
+		// batched: consecutive assertions with no change of the path condition in
+		// between are decided by one query (and individually only if that one is sat)
+		in.pending = append(in.pending, pendingAssert{id, c})
 		return nil
 	})
 	reg("Cover", func(in *Interp, fn *ssa.Function, a []Value) Value {
@@ -162,6 +152,9 @@ func registerIntrinsics(ex *Explorer) {
 		in.mode[str(a[0])] = int(in.Concretize(a[1].(*sym.Term)))
 		return nil
 	})
+	reg("Monitor", func(in *Interp, fn *ssa.Function, a []Value) Value {
+		return in.F.Int(int64(in.monitor[str(a[0])]))
+	})
 	reg("Exit", func(in *Interp, fn *ssa.Function, a []Value) Value {
 		in.fail("exit", "")
 		return nil
@@ -177,3 +170,77 @@ func registerIntrinsics(ex *Explorer) {
 }
 
 var _ = types.Typ
+
+type pendingAssert struct {
+	id string
+	c  *sym.Term
+}
+
+// checkAssert decides one assertion under the current path condition.
+func (in *Interp) checkAssert(id string, c *sym.Term) {
+	neg := in.F.Not(c)
+	r := in.S.CheckWith(neg)
+	in.Res.Queries++
+	if r == sym.Unknown {
+		r = in.fallbackCheck(neg)
+	}
+	switch r {
+	case sym.Unsat:
+		return
+	case sym.Unknown:
+		in.Res.Unknowns++
+		in.fail("unknown", "solver unknown on assertion "+id)
+	}
+	in.reportViolation(id, "", neg)
+}
+
+// flushAsserts decides all pending assertions; must run before the path condition changes.
+func (in *Interp) flushAsserts() {
+	if len(in.pending) == 0 {
+		return
+	}
+	ps := in.pending
+	in.pending = nil
+	if len(ps) == 1 {
+		in.checkAssert(ps[0].id, ps[0].c)
+		return
+	}
+	negs := make([]*sym.Term, len(ps))
+	for i, p := range ps {
+		negs[i] = in.F.Not(p.c)
+	}
+	any := in.F.Or(negs...)
+	r := in.S.CheckWith(any)
+	in.Res.Queries++
+	if r == sym.Unsat {
+		return
+	}
+	for _, p := range ps {
+		in.checkAssert(p.id, p.c)
+	}
+}
+
+// fallbackCheck re-submits the path condition plus extra to the other solvers.
+func (in *Interp) fallbackCheck(extra *sym.Term) sym.Result {
+	for _, name := range []string{"cvc5", "z3"} {
+		if name == in.Ex.SolverName {
+			continue
+		}
+		s, err := sym.NewSolver(name, in.Ex.TimeoutMs)
+		if err != nil {
+			continue
+		}
+		for _, t := range in.pc {
+			s.Assert(t)
+		}
+		s.Assert(extra)
+		r := s.Check()
+		s.Close()
+		in.Res.Queries++
+		in.Res.Fallbacks++
+		if r != sym.Unknown {
+			return r
+		}
+	}
+	return sym.Unknown
+}
